@@ -31,7 +31,7 @@ def gen_case(seed, idx):
     for i, p in enumerate(parts):
         files[i % 3].append(p)
     sources = [('/src/foo-%d.c' % i, '\n\n'.join(f) + '\n') for i, f in enumerate(files)]
-    lib = apigen.library(headers=[('/src/foo.h', header)], sources=sources, dump=dump, includes=['GObject-2.0', 'Gio-2.0', 'GLib-2.0'],
+    lib = apigen.library(headers=[('/src/foo.h', header)], sources=sources, dump=dump, includes=(['GObject-2.0', 'Gio-2.0', 'GLib-2.0'] if idx % 2 else ['Gio-2.0']),
                          c_includes=['foo.h', 'foo-extra.h'], packages=['gobject-2.0', 'gio-2.0', 'foo-1.0'], shared_libraries=['libfoo.so.1', 'libbar.so.2'])
     feats = {'classes': len(model['classes']), 'class_structs': sum(1 for c in model['classes'] if c['class_struct']), 'blocks': len(blocks),
              'ifaces': len(model['ifaces'])}
